@@ -295,6 +295,23 @@ Proof.
   assert (Hwr : c_static c = false -> wr = true).
   { intros Es. destruct Hc as [Hc|Hc]; [exact Hc|congruence]. }
   destruct i; try (apply exec_create_P; assumption); try (apply exec_call_P; assumption);
+    (* instructions added to the core model after this proof was written (EIP-8024 DUPN /
+       SWAPN / EXCHANGE, bad immediates): handled here only if they leave the world alone;
+       an added instruction that touches the world makes this proof fail, as it must *)
+    try (match goal with |- P (out_world (exec_instr rec c f ?j)) =>
+           lazymatch j with
+           | I_STOP => fail | I_un _ => fail | I_bin _ => fail | I_ter _ => fail | I_KECCAK256 => fail
+           | I_env0 _ => fail | I_env1 _ => fail | I_acct _ => fail | I_copy _ => fail
+           | I_EXTCODECOPY => fail | I_POP => fail | I_MLOAD => fail | I_MSTORE => fail
+           | I_MSTORE8 => fail | I_SLOAD => fail | I_SSTORE => fail | I_JUMP => fail
+           | I_JUMPI => fail | I_JUMPDEST => fail | I_TSTORE => fail | I_MCOPY => fail
+           | I_PUSH _ => fail | I_DUP _ => fail | I_SWAP _ => fail | I_LOG _ => fail
+           | I_RETURN => fail | I_REVERT => fail | I_INVALID => fail | I_SELFDESTRUCT => fail
+           | _ => solve [unfold exec_instr; destruct (f_stack f) as [|x0 [|x1 r]]; wfin;
+                         repeat (match goal with |- context [nth_error ?l ?n] => destruct (nth_error l n) end);
+                         wfin]
+           end
+         end);
     unfold exec_instr.
   - (* STOP *) exact Hw.
   - destruct (f_stack f) as [|x0 r]; wfin.
